@@ -38,6 +38,15 @@ func scribble(b []byte) {
 	}
 }
 
+// scribbleAll is what a caller may do to a value it owns: overwrite it and grow it in place
+// (append / v[:cap(v)]) — a private copy has private spare capacity too.
+func scribbleAll(b []byte) {
+	b = b[:cap(b)]
+	for i := range b {
+		b[i] ^= 0xA5
+	}
+}
+
 type st struct {
 	c      *wk.Ctx
 	i      int
@@ -163,8 +172,11 @@ func (s *st) get(k []byte) {
 				s.fail(sig, fmt.Sprintf("Get(%x) round %d = %s want %s (round 1 follows a scribble over the value returned in round 0)", k, round, g, dbx.Hex(want)))
 				return
 			}
-			scribble(got)
+			scribbleAll(got)
 			s.c.Count("scribble:Get:result", 1)
+			if len(got) == 0 {
+				s.c.Count("scribble:Get:empty-result-grown-in-place", 1)
+			}
 		} else if err != leveldb.ErrNotFound {
 			s.fail("read-mismatch", fmt.Sprintf("Get(%x) of a dead key: %v", k, err))
 			return
@@ -298,7 +310,11 @@ func runCase(c *wk.Ctx, i int) {
 		for n := 0; n < nops && !s.failed; n++ {
 			switch x := r.Intn(100); {
 			case x < 35:
-				s.put(ru.Keys.Pick(r), model.Value(1, uint32(ru.NOps), 0, model.ValueSize(r, os.O.GetBlockSize(), os.O.GetWriteBuffer())))
+				v := model.Value(1, uint32(ru.NOps), 0, model.ValueSize(r, os.O.GetBlockSize(), os.O.GetWriteBuffer()))
+				if r.Intn(8) == 0 {
+					v = []byte{} // the empty value: nothing to copy, but still nothing to share
+				}
+				s.put(ru.Keys.Pick(r), v)
 			case x < 45:
 				s.del(ru.Keys.Pick(r))
 			case x < 55:
@@ -326,6 +342,9 @@ func runCase(c *wk.Ctx, i int) {
 				for j := 0; j < 1+r.Intn(40); j++ {
 					k := ru.Keys.Pick(r)
 					v := model.Value(5, uint32(ru.NOps), uint32(j), 20+r.Intn(300))
+					if r.Intn(8) == 0 {
+						v = []byte{}
+					}
 					kp, kr := arg(k)
 					vp, vr := arg(v)
 					if err := tr.Put(kp, vp, nil); err != nil {
@@ -348,8 +367,11 @@ func runCase(c *wk.Ctx, i int) {
 							s.fail(sig, fmt.Sprintf("Transaction.Get(%x) round %d = %x,%v want %x", k, round, got, err, want))
 							break
 						}
-						scribble(got)
+						scribbleAll(got)
 						c.Count("scribble:Transaction.Get:result", 1)
+						if live && len(got) == 0 {
+							c.Count("scribble:Transaction.Get:empty-result-grown-in-place", 1)
+						}
 					}
 				}
 				if r.Intn(2) == 0 {
